@@ -464,6 +464,37 @@ class Inliner:
         "core::option::Option::<T>::or_else": ("Option", "Some", "None", "self", "call0"),
     }
 
+    VARIANT_TESTS = {
+        "core::option::Option::<T>::is_some": "1", "core::option::Option::<T>::is_none": "0",
+        "core::result::Result::<T, E>::is_ok": "0", "core::result::Result::<T, E>::is_err": "1",
+    }
+
+    def _expand_variant_test(self, b, t, callee, locals_, blocks):
+        """`opt.is_some()` / `is_none()` / `res.is_ok()` / `is_err()`: a switch on the discriminant."""
+        want = self.VARIANT_TESTS[callee["def"]]
+        args = t["args"]
+        if len(args) != 1 or args[0]["k"] not in ("move", "copy"):
+            return None
+        span = {k: t.get(k) for k in ("file", "line", "exp", "macro")}
+        cleanup = blocks[b]["cleanup"]
+        boolty = {"s": "bool", "k": "bool", "hp": False, "nd": False, "dp": 0}
+        dl = len(locals_)
+        locals_.append({"ty": {"s": "isize", "k": "int", "hp": False, "nd": False, "dp": 0}, "name": None})
+        pl = copy.deepcopy(args[0]["pl"])
+        pl["p"] = pl["p"] + ["*"]
+        goto = {"k": "goto", "target": t["target"], **span} if t["target"] is not None else {"k": "unreachable", **span}
+
+        def const_bool(v):
+            return {"k": "use", "op": {"k": "const", "ty": boolty, "int": "1" if v else "0", "desc": "true" if v else "false"}}
+        nb0 = len(blocks)
+        blocks.append({"cleanup": cleanup, "stmts": [{"k": "assign", "dst": copy.deepcopy(t["dst"]), "rv": const_bool(True), **span}], "term": dict(goto)})
+        blocks.append({"cleanup": cleanup, "stmts": [{"k": "assign", "dst": copy.deepcopy(t["dst"]), "rv": const_bool(False), **span}], "term": dict(goto)})
+        blocks[b]["stmts"].append({"k": "assign", "dst": {"l": dl, "p": []}, "rv": {"k": "discr", "pl": pl}, **span})
+        other = "0" if want == "1" else "1"
+        blocks.append({"cleanup": cleanup, "stmts": [], "term": {"k": "unreachable", **span}})     # two variants, both listed
+        blocks[b]["term"] = {"k": "switch", "discr": {"k": "move", "pl": {"l": dl, "p": []}}, "targets": [[want, nb0], [other, nb0 + 1]], "otherwise": nb0 + 2, **span, "adaptor": "variant-test"}
+        return [nb0, nb0 + 1, nb0 + 2]
+
     def _expand_tuple_eq(self, b, t, callee, locals_, blocks):
         """`(a, b) == (c, d)` on tuples of integers / bools / chars: the short-circuit chain of field comparisons the
         library impl performs (so that `counts == (1, 0)` refines like `strong == 1 && weak == 0`)."""
@@ -918,6 +949,10 @@ class Inliner:
                 blocks[b]["term"] = {"k": "drop", "pl": copy.deepcopy(t["args"][0]["pl"]), "ty": aty, "target": t["target"], "unwind": t["unwind"], **span, "via_mem_drop": True}
                 self._rework.append(b)
                 return []
+        if callee is not None and callee["def"] in self.VARIANT_TESTS:
+            r = self._expand_variant_test(b, t, callee, locals_, blocks)
+            if r is not None:
+                return r
         if callee is not None and callee["def"] in ("core::cmp::PartialEq::eq", "core::cmp::PartialEq::ne") and (callee.get("self_ty") or {}).get("k") == "tuple":
             r = self._expand_tuple_eq(b, t, callee, locals_, blocks)
             if r is not None:
